@@ -560,7 +560,11 @@ func CheckMain(propID, tier string, exe, raceExe, verifDir string) int {
 	exit := 0
 	knownHit := map[string]bool{}
 	unlisted := 0
-	violDir := filepath.Join(verifDir, "violations")
+	outDir := verifDir
+	if v := os.Getenv("VERIF_OUT"); v != "" {
+		outDir = v // mutation tests write their evidence / violation files elsewhere
+	}
+	violDir := filepath.Join(outDir, "violations")
 	for _, v := range violations {
 		matched := false
 		for _, k := range known {
@@ -629,9 +633,9 @@ func CheckMain(propID, tier string, exe, raceExe, verifDir string) int {
 		"wall_s":      time.Since(t0).Seconds(),
 		"violations":  unlisted,
 	}
-	os.MkdirAll(filepath.Join(verifDir, "evidence"), 0o755)
+	os.MkdirAll(filepath.Join(outDir, "evidence"), 0o755)
 	b, _ := json.MarshalIndent(ev, "", " ")
-	os.WriteFile(filepath.Join(verifDir, "evidence", p.ID+".json"), b, 0o644)
+	os.WriteFile(filepath.Join(outDir, "evidence", p.ID+".json"), b, 0o644)
 	kinds := make([]string, 0, len(byKind))
 	for k, v := range byKind {
 		kinds = append(kinds, fmt.Sprintf("%s=%d", k, v))
